@@ -17,7 +17,7 @@ open AslModel.Ini hiding Bytes
 open AslModel.Csv (Cell Dec parseRow writeRow isNumber atofDec)
 open C18Spec hiding Bytes
 open AslProofs.Ini (Op run setsOf path AnyOp anyRun SameLine Pointwise isEntryLine)
-open AslProofs.Csv (cellText CellOK numValue decValue ColOK StrOK NumText CellWF expected CellWFsemi)
+open AslProofs.Csv (cellText CellOK numValue decValue ColOK StrOK NumText CellWF expected CellWFsemi normalise ItemWF)
 
 abbrev Bytes := List UInt8
 
@@ -120,7 +120,10 @@ theorem ini_write_in_bounds (file : Option Bytes) (_hfile : ∀ t, file = some t
     (anyRun (Ini.openFile file shouldwrite) ops).isSome = true :=
   AslProofs.Ini.anyRun_isSome _ (AslProofs.Ini.openFile_hasNE file shouldwrite) ops
 
-/-- **ini_unreadable_path.**  An `IniFile` on a path that opens but cannot be read (a directory) is, with the repaired
+/-- **ini_unreadable_path** (definitional: the first conjunct is `rfl`, the second an instance of
+    `ini_write_in_bounds`; that a directory really yields one failed read after which `end()` is true, and that the
+    constructor returns at all, is established only by the correspondence op `inidir` with its watchdog).
+    An `IniFile` on a path that opens but cannot be read (a directory) is *modelled as*, with the repaired
     `TextFile::end()` (end of file *or read error*, 4bfeeba; before, the constructor's `while(!file.end())` never
     ended), the `IniFile` of an empty file, and no history of NUL-free `set` / `operator[]=` / `write` calls on it reads outside
     `_lines`. -/
@@ -188,8 +191,10 @@ example : parseRow 44 (writeRow 44 34 [.str [104, 34, 105, 44], .str [], .str [9
     one cell per column — cells being NUL-free strings without line breaks that do not spell a number (any mix of
     `, ; " '` and blanks, empty strings; the file format cannot tell a string that spells a number from the
     number) and number texts — the file written by `columns(cols)` followed by `<<` of every cell, **or** by `<<`
-    of every row as an array `Var` (equal rows, e.g. the same array sent again, included: the writer copies the
-    array, 23ed28f), read by a fresh `TabularDataFile`, gives back the column names and, row for row and cell for
+    of every row as an array `Var` (the model takes an array by value, so this half says nothing about the
+    caller's array: that the writer copies it instead of sharing and clearing it — the defect repaired by 23ed28f —
+    is checked by the correspondence check only, through the caller's array lengths `lens=`), read by a fresh
+    `TabularDataFile`, gives back the column names and, row for row and cell for
     cell, the strings written and, for the numbers, `myatof` of the text written (whose exact value is
     `csv_number_exact_Q`). -/
 theorem csv_table_roundtrip (cols : List Bytes) (hne : cols ≠ []) (hcols : ∀ n ∈ cols, ColOK n)
@@ -205,6 +210,22 @@ theorem csv_table_roundtrip (cols : List Bytes) (hne : cols ≠ []) (hcols : ∀
   rw [AslProofs.Csv.writeItemsG_default, AslProofs.Csv.writeItemsG_default, AslProofs.Csv.writeItems_cells,
     AslProofs.Csv.writeItems_arrays cols rows hrows']
   exact ⟨AslProofs.Csv.table_roundtrip cols hne hcols rows hrows, AslProofs.Csv.table_roundtrip cols hne hcols rows hrows⟩
+
+/-- **csv_items_roundtrip.**  Any sequence of `<<` items whatsoever — single cells and array rows in any mix, arrays
+    shorter or longer than the column count included — with well-formed cells writes a file that a fresh
+    `TabularDataFile` reads back as exactly the rows the documented rule yields (`normalise`: a cell is appended to
+    the pending row, an array *is* the pending row, a row is written when it has exactly as many cells as there are
+    columns; a too-long pending row is never written and is replaced by the next array), cell for cell.
+    Not covered: the `"\n"` cell that flushes a short row (excluded by `CellWF`, correspondence check only). -/
+theorem csv_items_roundtrip (cols : List Bytes) (hne : cols ≠ []) (hcols : ∀ n ∈ cols, ColOK n)
+    (items : List Csv.WItem) (hi : ∀ it ∈ items, ItemWF it) :
+    Csv.readTable (Csv.writeItemsG 44 46 cols items) =
+      { columns := cols, rows := (normalise cols.length items []).map (·.map expected) } := by
+  rw [AslProofs.Csv.writeItemsG_default, AslProofs.Csv.writeItems_normalise cols hne items hi]
+  exact AslProofs.Csv.table_roundtrip cols hne hcols _ (AslProofs.Csv.normalise_rows cols.length items hi [] (by simp))
+
+/-- a short array followed by a cell is one row of two columns: `[1] , "y"` gives the row `1, y` -/
+example : normalise 2 [.arr [.num [49]], .cell (.str [121])] [] = [[.num [49], .str [121]]] := by decide
 
 /-- **csv_semicolon_row.**  After `setSeparator(';')` (decimal point kept, as the writer does unless `setDecimal` is
     called) every non-empty row of cells — NUL-free strings without line breaks that spell a number with neither
